@@ -64,12 +64,17 @@ class Cx:
             if need not in self.funcs:
                 raise AnalysisError(f"anchor vanished: poisson.{need}")
         self.nodes = {k: v.node for k, v in self.funcs.items()}
+        self.globs = e10.module_globals_of(repo.modules["poisson"].tree)
+        for k in list(self.globs):
+            # classes of the package are handled by stubs, not as records
+            if isinstance(self.globs[k], ast.ClassDef) and k in ("AtomGrid", "MolGrid"):
+                del self.globs[k]
 
     def loc(self, name):
         return self.funcs[name].loc()
 
     def run(self, name, kw, ext, generic):
-        it = self.e10.Interp(self.nodes, ext, generic=generic)
+        it = self.e10.Interp(self.nodes, ext, generic=generic, module_globals=self.globs)
         try:
             return it.call_def(self.nodes[name], [], kw, {})
         except self.e10.Undecided as e:
@@ -89,7 +94,7 @@ class Cx:
 class World:
     """Stubs for one atomic grid with a given l_max and N evaluation points."""
 
-    def __init__(self, cx, l_max, npts=2, tag=""):
+    def __init__(self, cx, l_max, npts=2, tag="", neutral=False):
         sp = _sp()
         e10 = cx.e10
         self.cx, self.l_max, self.tag = cx, l_max, tag
@@ -100,8 +105,10 @@ class World:
         self.generic = set(self.r) | {self.rcap}
         self.mesh = [sp.Symbol(f"s{tag}{n}", positive=True) for n in range(3)]
         self.generic |= set(self.mesh)
-        self.Q = sp.Symbol(f"Q{tag}")
-        self.Y00 = sp.Symbol("Y00c")
+        # total charge: a generic non-zero value, or exactly zero (a signed, net-neutral density)
+        self.Q = sp.Integer(0) if neutral else sp.Symbol(f"Q{tag}", positive=True)
+        self.Y00 = sp.Symbol("Y00c", positive=True)
+        self.generic |= {self.Y00} | ({self.Q} if not neutral else set())
         self.harm_calls = []
         self.spline_inputs = []
         self.odes = []
@@ -146,12 +153,19 @@ class World:
                 rec = dict(zip(names, args))
                 rec.update(kw)
                 r_ = e10.arr([world.rcap])
-                f = world.cx.apply(rec["fx"], r_)
+
+                def call(c):
+                    # a closure, a stub, or a module-level function passed by name
+                    if isinstance(c, tuple) and len(c) == 2 and c[0] == "modfunc":
+                        it2 = e10.Interp(world.cx.nodes, world.ext, generic=world.generic, module_globals=world.cx.globs)
+                        return world.cx.apply(lambda *a: it2.call_def(world.cx.nodes[c[1]], list(a), {}, {}), r_)
+                    return world.cx.apply(c, r_)
+                f = call(rec["fx"])
                 f = f[0] if hasattr(f, "shape") else f
                 cs = []
                 for c in rec["coeffs"]:
-                    if isinstance(c, (e10.Closure, e10.Fn)):
-                        v = world.cx.apply(c, r_)
+                    if isinstance(c, (e10.Closure, e10.Fn)) or callable(c) or (isinstance(c, tuple) and len(c) == 2 and c[0] == "modfunc"):
+                        v = call(c)
                         cs.append(v[0] if hasattr(v, "shape") else v)
                     else:
                         cs.append(sp.nsimplify(c) if isinstance(c, (int, float)) else c)
@@ -169,21 +183,27 @@ def _degree(i):
     return math.isqrt(i)
 
 
-def _radial_rule(rep, cx, solver, kind, w, interp, here):
+def _radial_rule(rep, cx, solver, kind, w, interp, here, note=""):
     """P1 + P3 for one solver run."""
     sp = _sp()
     e10 = cx.e10
-    pts = e10.Unknown("cartesian points")
+    pts = e10._obj_array([[sp.Symbol(f"x{w.tag}{n}{a}") for a in range(3)] for n in range(len(w.r))])
     out = cx.apply(interp, pts)
     if not hasattr(out, "shape") or out.shape != (len(w.r),):
         rep.violation("P1.radial-equation", f"poisson.{solver}.interpolate", "shape",
                       f"the interpolant returns shape {getattr(out, 'shape', None)} for {len(w.r)} points", here)
         return 0
     recon = [h for h in w.harm_calls if h[1]]
+    if not recon:
+        rep.violation("P1.radial-equation", f"poisson.{solver}.interpolate", "reconstruction",
+                      f"l_max = {w.l_max}{note}: the returned potential `{[str(v)[:40] for v in list(out)]}` is not assembled from the "
+                      f"radial solutions and the harmonics at the evaluation points ({len(w.odes)} radial ODEs were posed); the radial "
+                      f"components rho_i of the density are arbitrary, so W'' + 2W'/r - l(l+1)W/r^2 = -4 pi rho_i cannot hold", here)
+        return 0
     if len(recon) != 1:
         raise AnalysisError(f"poisson.{solver}: expected one evaluation of the harmonics at the evaluation points, found {len(recon)}")
     rows = (recon[0][0] + 1) ** 2
-    cfg = f"l_max = {w.l_max}"
+    cfg = f"l_max = {w.l_max}{note}"
     if len(w.odes) != rows:
         rep.violation("P3.one-ode-per-harmonic", f"poisson.{solver}", "count",
                       f"{cfg}: {len(w.odes)} radial ODEs are solved but the reconstruction uses {rows} harmonic rows "
@@ -240,16 +260,17 @@ def rule_bvp(rep, cx):
     here = cx.loc(name)
     n = nb = 0
     for l_max in (3, 4):
-        for given in (False, True):
-            w = World(cx, l_max)
-            B = sp.Symbol("B")
+        for given, neutral in ((False, False), (True, False), (False, True)):
+            w = World(cx, l_max, neutral=neutral)
+            B = sp.Symbol("B", positive=True)
+            w.generic.add(B)
             kw = {"atomgrid": w.atomgrid, "func_vals": cx.e10.Unknown("density values"), "transform": w.transform,
                   "boundary": B if given else None, "remove_large_pts": None}
             interp = cx.run(name, kw, w.ext, w.generic)
             if not callable(interp):
                 raise AnalysisError(f"poisson.{name} does not return a function")
             if not given:
-                n += _radial_rule(rep, cx, name, "bvp", w, interp, here)
+                n += _radial_rule(rep, cx, name, "bvp", w, interp, here, " (net-neutral density: total charge exactly 0)" if neutral else "")
             # P2
             want_b = B if given else w.Q / w.Y00
             for i, ode in enumerate(w.odes):
@@ -267,10 +288,10 @@ def rule_bvp(rep, cx):
                                   f"{'the total charge / Y_00 (or the given boundary)' if i == 0 else 'zero'} at the far end: {want}", here)
                     break
             else:
-                rep.ok("P2.monopole-data", f"{name}[l_max = {l_max}, boundary {'given' if given else 'computed'}]", here,
+                rep.ok("P2.monopole-data", f"{name}[l_max = {l_max}, boundary {'given' if given else 'zero charge' if neutral else 'computed'}]", here,
                        "u(0) = 0, u(inf) = Q/Y00 for the monopole, 0 otherwise")
-    rep.floor("P1 identities (bvp)", n, 2 * (4 + 9))
-    rep.floor("P2 components (bvp)", nb, 2 * (4 + 9))
+    rep.floor("P1 identities (bvp)", n, 2 * 2 * (4 + 9))
+    rep.floor("P2 components (bvp)", nb, 3 * (4 + 9))
 
 
 def rule_ivp(rep, cx):
@@ -278,15 +299,15 @@ def rule_ivp(rep, cx):
     name = "_solve_poisson_ivp_atomgrid"
     here = cx.loc(name)
     n = nb = 0
-    for l_max in (3, 4):
-        w = World(cx, l_max)
+    for l_max, neutral in ((3, False), (4, False), (3, True)):
+        w = World(cx, l_max, neutral=neutral)
         rmax, rmin = sp.Symbol("RMAX", positive=True), sp.Symbol("RMIN", positive=True)
         kw = {"atomgrid": w.atomgrid, "func_vals": cx.e10.Unknown("density values"), "transform": w.transform,
               "r_interval": (rmax, rmin)}
         interp = cx.run(name, kw, w.ext, w.generic)
         if not callable(interp):
             raise AnalysisError(f"poisson.{name} does not return a function")
-        n += _radial_rule(rep, cx, name, "ivp", w, interp, here)
+        n += _radial_rule(rep, cx, name, "ivp", w, interp, here, " (net-neutral density: total charge exactly 0)" if neutral else "")
         for i, ode in enumerate(w.odes):
             y0 = list(ode["rec"].get("y0"))
             span = ode["rec"].get("x_span")
@@ -309,8 +330,8 @@ def rule_ivp(rep, cx):
                 break
         else:
             rep.ok("P2.monopole-data", f"{name}[l_max = {l_max}]", here, "V(r_max) = Q/(Y00 r_max), V' = d/dr of it; others 0")
-    rep.floor("P1 identities (ivp)", n, 2 * (4 + 9))
-    rep.floor("P2 components (ivp)", nb, 4 + 9)
+    rep.floor("P1 identities (ivp)", n, 2 * (4 + 9 + 4))
+    rep.floor("P2 components (ivp)", nb, 4 + 9 + 4)
 
 
 def rule_assembly(rep, cx):
@@ -491,6 +512,7 @@ def run(tier="quick", root="/repo", evidence_dir=None, quiet=False):
     rep.attempt(rule_assembly, rep, cx)
     rep.attempt(rule_wrappers, rep, cx)
     rep.attempt(rule_robust, rep, repo)
+    rep.attempt(rule_fit, rep, repo)
     rep.extra["source_digest"] = repo.digest(["poisson", "robust_poisson"])
     return rep.finish(evidence_dir=evidence_dir, quiet=quiet)
 
@@ -546,7 +568,7 @@ def rule_robust(rep, repo):
 
         ext = {"load_atomic_gaussian_params": load, "coulomb_potential": coulomb, "solve_poisson_bvp": bvp,
                "_fit_residual_gaussians": fit}
-        it = e10.Interp(nodes, ext)
+        it = e10.Interp(nodes, ext, module_globals=e10.module_globals_of(repo.modules["robust_poisson"].tree))
         kw = {"molgrid": mol, "density_vals": D, "transform": e10.Obj("transform"), "atnums": atnums, "atcoords": atc,
               "split2": split2, "alphas_basis": e10.arr([sp.Symbol("ab0", positive=True)]), "tol": sp.Symbol("TOL")}
         try:
@@ -624,3 +646,67 @@ def rule_robust(rep, repo):
         rep.ok("P7.robust-recombination", f"{name}[{cfg}]", here,
                f"subtracts the {'normalised' if kind else 'bare'} s-Gaussian density of the loaded parameters, adds back its potential, sums")
     rep.floor("P7 configurations", n, 2)
+
+
+def rule_fit(rep, repo):
+    """P8: the second split removes from the residual exactly the Gaussians it reports."""
+    sp = _sp()
+    from gridlint import e10
+    funcs = {f.name: f for f in repo.funcs.values()
+             if f.module == "robust_poisson" and f.cls is None and f.parent is None and isinstance(f.node, ast.FunctionDef)}
+    name = "_fit_residual_gaussians"
+    if name not in funcs:
+        rep.note("robust_poisson has no _fit_residual_gaussians helper (rule P8 not applicable)")
+        return
+    nodes = {k: v.node for k, v in funcs.items()}
+    here = funcs[name].loc()
+    ps = [a.arg for a in funcs[name].node.args.args]
+    if len(ps) != 4:
+        raise AnalysisError(f"unrecognised signature of robust_poisson.{name}")
+    N, A_, K = 2, 2, 2
+    n = 0
+    for descending in (False, True):
+        gp = e10._obj_array([[sp.Symbol(f"g{k}{c}", real=True) for c in range(3)] for k in range(N)])
+        atc = e10._obj_array([[sp.Symbol(f"R{a}{c}", real=True) for c in range(3)] for a in range(A_)])
+        res = e10.arr([sp.Symbol(f"res{k}") for k in range(N)])
+        ab = [sp.Symbol(f"ab{k}", positive=True) for k in range(K)]
+        calls = []
+
+        def nnls(A, b, **kw):
+            k = len(calls)
+            calls.append((A, b))
+            return e10.arr([sp.Symbol(f"co{k}_{j}", positive=True) for j in range(A.shape[1])]), sp.Symbol(f"rn{k}")
+        generic = {sp.Symbol(f"co{k}_{j}", positive=True) for k in range(A_) for j in range(K)}
+        it = e10.Interp(nodes, {"nnls": nnls}, generic=generic, module_globals=e10.module_globals_of(repo.modules["robust_poisson"].tree))
+        it.chain = list(reversed(ab)) if descending else list(ab)
+        cfg = "basis given in descending order" if descending else "basis given in ascending order"
+        try:
+            out = it.call_def(nodes[name], [gp, res, atc, e10.arr(ab)], {}, {})
+        except e10.Undecided as e:
+            raise AnalysisError(f"robust_poisson.{name} is outside the fragment the symbolic array evaluator knows: {e}") from e
+        except (IndexError, ValueError, TypeError, KeyError, AttributeError) as e:
+            raise AnalysisError(f"robust_poisson.{name}: the evaluation over symbolic arrays failed ({type(e).__name__}: {e})") from e
+        if not isinstance(out, (tuple, list)) or len(out) != 4:
+            raise AnalysisError(f"robust_poisson.{name} does not return (coefficients, exponents, centres, residual)")
+        co, al, ce, rout = out
+        co, al = list(co), list(al)
+        ce = ce if hasattr(ce, "shape") else e10._obj_array(ce)
+        n += 1
+        if not (len(co) == len(al) == ce.shape[0]) or len(list(rout)) != N:
+            rep.violation("P8.fit-consistency", f"robust_poisson.{name}", "lengths",
+                          f"{cfg}: {len(co)} coefficients, {len(al)} exponents, {ce.shape[0]} centres are returned", here)
+            continue
+        bad = False
+        for k in range(N):
+            removed = sum(co[t] * (al[t] / sp.pi) ** sp.Rational(3, 2) * sp.exp(-al[t] * sum((gp[k, c] - ce[t, c]) ** 2 for c in range(3)))
+                          for t in range(len(co)))
+            if sp.simplify(sp.expand(rout[k] - (res[k] - removed))) != 0:
+                rep.violation("P8.fit-consistency", f"robust_poisson.{name}", "removed-equals-reported",
+                              f"{cfg}: the residual handed on is not the input residual minus the normalised s-Gaussians that the "
+                              f"function reports (coefficient, exponent, centre triples): what is subtracted from the density and what "
+                              f"is later added back analytically are different functions", here)
+                bad = True
+                break
+        if not bad:
+            rep.ok("P8.fit-consistency", f"{name}[{cfg}]", here, f"{len(co)} reported Gaussians = what is removed from the residual")
+    rep.floor("P8 configurations", n, 2)
